@@ -35,7 +35,7 @@ PARTIAL["C10"] = "proved for all inputs: Service.handle_upload_config / handle_u
 PARTIAL["C11"] = "proved for all inputs: the ten ClientServiceState flag helpers (set/clear/test exactly one bit) and the server-state resynchronisation (touches only the two upload flags); bounded stand-in: client operation histories against the 5-flag reference model with a live loopback server, key write-once, rejected configurations"
 PARTIAL["C13"] = "proved for all inputs: the server handlers keep mem.state == recorded state and write config before the state record (contracts over the ghost disk); the client resynchronisation recovers both upload flags from the init echo; bounded stand-in: every file-system mutation of the seven persisting steps, kill before/after, restart, finish the workflow (in-process kill simulation)"
 PARTIAL["C09"] = "proved for all inputs: server handlers store exactly the received bytes and report/guard by the recorded state; client resynchronisation; bounded stand-in: the documented workflow over loopback websockets for all nine schemes with client re-creation and server restarts; the end-to-end composition lemma is not mechanised"
-PARTIAL["C19"] = "bounded stand-in only so far (seeded operation histories against a list model); contracts for the index -> (file, offset) arithmetic are not yet in place"
+PARTIAL["C19"] = "proved for all array lengths, item sizes, chunk sizes and indices over the ghost file system (D2): index -> (file, offset) mapping and lazy file cache, int reads/writes with negative indices against the abstract view (a list of left-zero-padded items; unwritten regions read as zeros), slice reads with any start/stop/step, iteration, element deletion and clear (zero fill), exact exception conditions with no effect on any file, create/reopen through the meta file, typestate closed => every operation raises ValueError, only the array's own chunk files are ever created or changed, client lemma write->close->reopen; bounded stand-in only: slice assignment with rollback, slice deletion, membership, from_list, release, and mixed operation histories against a list model"
 PARTIAL["C20"] = "proved for all inputs over the ghost file system (D2) and pickle round trip (P1): every PickledDict operation equals dict's and touches no file; sync/close leave exactly pickle(contents) in the file and install the closed marker (typestate); open recovers the contents; from_dict copies; create on an existing / open on a missing path refuse; every operation on a closed dictionary raises ValueError; client lemmas close->reopen, sync->open, from_dict independence, close twice; bounded stand-in only: DBMDict / BytesShelf (one session) and mixed operation histories against a dict model"
 
 PROPS = {
@@ -53,7 +53,7 @@ PROPS = {
     "C06": dict(modules=["pibas", "pipack", "sse_bounded"], assumptions=A_SSE, bounded=[], partial=PARTIAL["C06"], runtime_checks=[["sse_bounded", "rt_c06"]]),
     "C07": dict(modules=["pibas", "pipack", "sse_bounded"], assumptions=A_SSE, bounded=[], partial=PARTIAL["C07"], runtime_checks=[["sse_bounded", "rt_c07"]]),
     "C08": dict(modules=["pibas", "pipack", "sse_bounded"], assumptions=A_SSE, bounded=[], partial=PARTIAL["C08"], runtime_checks=[["sse_bounded", "rt_c08"]]),
-    "C19": dict(modules=["persist_bounded"], assumptions=A_ENGINE + ["D2: file objects: seek/read/write/close as documented"], bounded=[],
+    "C19": dict(modules=["persist", "persist_bounded"], assumptions=A_ENGINE + ["D2: ghost file system (pyvc/files.py): open/seek/read/write/close, os.path.exists, os.unlink, pickle.dump/load on a file object as documented; sparse writes zero-fill; buffering transparent", "P1: pickle round trip of the meta tuple", "B5: collections.abc.Sequence.__iter__ is the documented loop over __getitem__ until IndexError (restated as ghost code and verified)", "cidx_def: conservative inverse of the (proved injective) chunk-path function"], bounded=[],
                 partial=PARTIAL["C19"], runtime_checks=[["persist_bounded", "rt_c19"]]),
     "C20": dict(modules=["persist", "persist_bounded"], assumptions=A_ENGINE + ["P1: pickle round trip", "D2: ghost file system (pyvc/files.py): open/seek/read/write/truncate/flush/close, os.path.exists, os.unlink, pickle.dump/load on a file object as documented; buffering transparent", "B5: collections.abc.MutableMapping mixin methods are defined through __getitem__/__iter__ as documented", "D3: a dbm handle behaves like dict[bytes, bytes] within one session"], bounded=[],
                 partial=PARTIAL["C20"], runtime_checks=[["persist_bounded", "rt_c20"]]),
